@@ -15,7 +15,9 @@ import (
 	"verif/harness/internal/c18"
 	"verif/harness/internal/c20"
 	"verif/harness/internal/codec"
+	"verif/harness/internal/c19"
 	"verif/harness/internal/mach"
+	"verif/harness/internal/persist"
 	"verif/harness/internal/tables"
 )
 
@@ -24,7 +26,10 @@ var drivers = map[string]func(seed int64, tier, out string){
 	"C15": c15.Run,
 	"C17": c17.Run,
 	"C18": c18.Run,
+	"C19": c19.Run,
 	"C20": c20.Run,
+	"C10": persist.RunC10,
+	"C11": persist.RunC11,
 	"gen": tables.Run,
 	"C13": codec.RunC13,
 	"C14": codec.RunC14,
